@@ -630,3 +630,97 @@ pub fn check_fn_answers(case: &str) -> Result<(), String> {
     if got != w { return Err(format!("`{}` over `{}`: solve_all gives {:?}, expected {:?}", q, prog.replace('\u{2}', " "), got, w)); }
     Ok(())
 }
+
+// ---- C04, print_list: one line per argument, in argument order (supplementary to the proof; witnesses) --------------------
+// case: `<bindings>\u{1}<arguments>`; bindings `$V=term;...` are made by unification in that order, the arguments are
+// parsed with the bindings' variable names.  Expected text from the statement of the built-in (README: "prints out each
+// argument on its own line, a list as its comma-separated elements"), written here independently of the engine's code.
+pub fn enum_print_list(_seed: u64) -> Vec<String> {
+    let binds = ["", "$X=a", "$X=[a, b, c]", "$X=[a | $T];$T=[b, c]", "$X=$Y;$Y=[1, 2]", "$X=f(a, $Y);$Y=2", "$X=[]", "$X=[a, $Y];$Y=[b]"];
+    let args = ["", "a", "$X", "a, b", "$X, a", "a, $X", "[a, b], [c]", "$X, $X", "$Z", "[a | $X]", "f($X), 3.5, $X", "[$X, b], $X, c", "[], a"];
+    let mut out = vec![];
+    for b in binds { for a in args { out.push(format!("{}\u{1}{}", b, a)); } }
+    out
+}
+pub fn check_print_list(case: &str) -> Result<(), String> {
+    let (binds, args) = case.split_once('\u{1}').ok_or("bad case")?;
+    // one variable table for the bindings and the arguments
+    let mut names: Vec<String> = vec![];
+    let mut with_ids = |t: &Unifiable| -> Unifiable {
+        fn go(t: &Unifiable, names: &mut Vec<String>) -> Unifiable {
+            match t {
+                Unifiable::LogicVar { name, .. } => {
+                    let k = match names.iter().position(|n| n == name) { Some(k) => k, None => { names.push(name.clone()); names.len() - 1 } };
+                    Unifiable::LogicVar { id: k + 1, name: name.clone() }
+                },
+                Unifiable::SComplex(ts) => Unifiable::SComplex(ts.iter().map(|x| go(x, names)).collect()),
+                Unifiable::SFunction { name, terms } => Unifiable::SFunction { name: name.clone(), terms: terms.iter().map(|x| go(x, names)).collect() },
+                Unifiable::SLinkedList { term, next, count, tail_var } =>
+                    Unifiable::SLinkedList { term: Box::new(go(term, names)), next: Box::new(go(next, names)), count: *count, tail_var: *tail_var },
+                o => o.clone(),
+            }
+        }
+        go(t, &mut names)
+    };
+    let mut ss = empty_ss!();
+    for b in binds.split(';').filter(|b| !b.is_empty()) {
+        let (v, t) = b.split_once('=').ok_or("bad binding")?;
+        let (v, t) = (with_ids(&parse_term(v)?), with_ids(&parse_term(t)?));
+        ss = v.unify(&t, &ss).ok_or("the bindings do not unify")?;
+    }
+    let terms: Vec<Unifiable> = if args.is_empty() { vec![] } else {
+        match parse_complex(&format!("f({})", args))? { Unifiable::SComplex(ts) => ts[1..].iter().map(|t| with_ids(t)).collect(), _ => return Err("bad arguments".into()) } };
+    // expected, from the statement: the end of a variable's chain
+    fn resolve<'b>(t: &'b Unifiable, ss: &'b SubstitutionSet) -> &'b Unifiable {
+        let mut cur = t; let mut fuel = 1000;
+        while let Unifiable::LogicVar { id, .. } = cur { if fuel == 0 { break; } fuel -= 1; if *id < ss.len() { if let Some(n) = &ss[*id] { cur = n; continue; } } break; }
+        cur
+    }
+    // the elements of a list, tail variables followed through the bindings
+    fn elements(l: &Unifiable, ss: &SubstitutionSet, out: &mut Vec<String>) {
+        let mut cur = l;
+        loop {
+            match cur {
+                Unifiable::SLinkedList { term, next, tail_var, .. } => {
+                    if **term == Unifiable::Nil { return; }
+                    if *tail_var {
+                        let t = resolve(term, ss);
+                        if let Unifiable::SLinkedList { .. } = t { cur = t; continue; }
+                        if **term != Unifiable::Anonymous || true { out.push(format!("{}", t)); }
+                        return;
+                    }
+                    out.push(format!("{}", resolve(term, ss)));
+                    cur = next;
+                },
+                _ => return,
+            }
+        }
+    }
+    // (a list with an UNBOUND variable among its elements or as its tail is outside the comparison: format_slist writes
+    //  nothing for such an element - `[$X, b]` gives ", b", `[a | $T]` gives "a" - and no property states the text of a list;
+    //  recorded as an observation, DESIGN.md 8.35)
+    fn has_unbound(t: &Unifiable, ss: &SubstitutionSet, depth: usize) -> bool {
+        if depth > 50 { return true; }
+        match t {
+            Unifiable::LogicVar { .. } => { let r = resolve(t, ss); if let Unifiable::LogicVar { .. } = r { true } else { has_unbound(r, ss, depth + 1) } },
+            Unifiable::SLinkedList { term, next, .. } => has_unbound(term, ss, depth + 1) || has_unbound(next, ss, depth + 1),
+            _ => false,
+        }
+    }
+    let mut want = String::new();
+    for (k, t) in terms.iter().enumerate() {
+        let v = if let Unifiable::LogicVar { .. } = t { resolve(t, &ss) } else { t };
+        if let Unifiable::SLinkedList { .. } = v { if has_unbound(v, &ss, 0) { crate::skip(); return Ok(()); } }
+        if let Unifiable::SLinkedList { .. } = v {
+            if k > 0 { want.push_str(",\n"); }
+            let mut es = vec![]; elements(v, &ss, &mut es);
+            want.push_str(&es.join(", ")); want.push('\n');
+        } else { want.push_str(&format!("{}\n", v)); }
+    }
+    let bip = BuiltInPredicate::new("print_list".to_string(), if terms.is_empty() { None } else { Some(terms.clone()) });
+    let cap = Capture::start("pl");
+    next_solution_print_list(bip, &ss);
+    let got = cap.end();
+    if got != want { return Err(format!("print_list({}) with {} wrote {:?}, the statement gives {:?}", args, if binds.is_empty() { "no bindings" } else { binds }, got, want)); }
+    Ok(())
+}
